@@ -31,19 +31,19 @@ class ShimNP:
         return getattr(_np, n)
 
     def zeros(self, shape, *a, **k):
-        return _obj(shape, 0)
+        return _obj(shape, J.const(self._F, 0))
 
     def ones(self, shape, *a, **k):
-        return _obj(shape, 1)
+        return _obj(shape, J.const(self._F, 1))
 
     def empty(self, shape, *a, **k):
-        return _obj(shape, 0)
+        return _obj(shape, J.const(self._F, 0))
 
     def zeros_like(self, x, *a, **k):
-        return _obj(_np.shape(x), 0)
+        return _obj(_np.shape(x), J.const(self._F, 0))
 
     def ones_like(self, x, *a, **k):
-        return _obj(_np.shape(x), 1)
+        return _obj(_np.shape(x), J.const(self._F, 1))
 
     def array(self, x, *a, **k):
         if 'dtype' in k or a:
